@@ -68,7 +68,9 @@ int _vnacal_new_solve_simple(vnacal_new_solve_state_t *vnssp,
      * For each system of equations...
      */
     assert(x_length == vnp->vn_systems * unknowns);
-    for (int sindex = 0; sindex < vnp->vn_systems; ++sindex) {
+    for (int sindex = 0, w_offset = 0; sindex < vnp->vn_systems;
+	    w_offset += vnp->vn_system_vector[sindex].vns_equation_count,
+	    ++sindex) {
 	const int offset = sindex * unknowns;
 	vnacal_new_system_t *vnsp = &vnp->vn_system_vector[sindex];
 	const int equations = vnsp->vns_equation_count;
@@ -119,7 +121,7 @@ int _vnacal_new_solve_simple(vnacal_new_solve_state_t *vnssp,
 			value *= vs_get_v(vnssp);
 		    }
 		    if (w_vector != NULL) {
-			value *= w_vector[eq_count];
+			value *= w_vector[w_offset + eq_count];
 		    }
 		    if (xindex == -1) {
 			b_vector[eq_count] += value;
